@@ -15,6 +15,7 @@ ELEMENT_POOL = ["default", "plugin", "body", "worldbody", "compiler", "option", 
                 "lengthrange", "general", "touch", "clock", "e_potential", "Mixed_Case9", "camera", "light"]
 ATTR_POOL = ["name", "class", "objname", "objtype", "refname", "reftype", "model", "meshdir", "texturedir", "assetdir",
              "prefix", "file", "timestep", "zfar", "znear", "memory", "iterations"]
+GROUP_POOL = ["orientation", "transmission", "sensor_base", "equality_base"]
 CARDS = ["?", "!", "*", "R"]
 
 
@@ -152,7 +153,7 @@ class Gen42(c41.Gen):
                     if scalar or (lo <= 1 and top >= 1 and rng.random() < 0.2):
                         a["default"] = ("f", tame_num(rng, integral))
                     elif top >= 1:
-                        n = rng.randint(max(lo, 1), min(top, 9 if rng.random() < 0.97 else 12))
+                        n = rng.randint(max(lo, 1), max(max(lo, 1), min(top, 8 if rng.random() < 0.97 else 12)))
                         if n >= max(lo, 1):
                             a["default"] = ("v", [tame_num(rng, integral) for _ in range(n)])
                 vec_facets_ok = (lo == 1 and hi == 1) or rng.random() < self.wild
@@ -205,6 +206,10 @@ class Gen42(c41.Gen):
         for gi in range(rng.randint(0, size)):
             variant = rng.random() < 0.2
             name = self.ident("g")
+            if rng.random() < 0.15:
+                cand = [g for g in GROUP_POOL if g not in exp]
+                if cand:
+                    name = rng.choice(cand)
             members, own = [], set()
             for _ in range(rng.randint(1, 4)):
                 a = self.attr42(s, used_attr, variant, ns_pool)
